@@ -20,13 +20,13 @@ RULE = ('Example multisets are built from 1-6 shape templates (1-5 fragments '
         'variableLengthFrags, dialect in {perl, portable, grep}, Size '
         'settings small enough to force the sampled-attempt loop, seeds and '
         'input form list/dict/Series. Oracle: every kept example is matched '
-        '(re.match on the anchored expression, UNICODE|DOTALL, which is what '
-        'every tdda consumer of these expressions uses) by >=1 returned '
+        'in full (re.fullmatch, UNICODE|DOTALL: a "$" that matches just '
+        'before a final line break does not count) by >=1 returned '
         'expression. Non-trivial: >=2 distinct kept examples share one coarse '
         'signature, or the sampling path is taken; distinct by case hash.')
-ASSUMPTIONS = ['"matched in full" is read as re.match against the ^...$ '
-               'anchored expression; cases where fullmatch differs (trailing '
-               'newline before $) are labelled, not judged']
+ASSUMPTIONS = ['"matched in full" is re.fullmatch (until session 3 it was '
+               'read as re.match on the anchored expression, which hid the '
+               'defect repaired by 16bd489)']
 
 F_NONASCII_DECIMAL = 'F-rexpy-nonascii-decimal-portable'
 F_SAMPLING = 'F-rexpy-sampling-last-round'
@@ -150,10 +150,10 @@ def run(case, ctx):
         out.violate('unmatched', 'invalid-regex', '%s in %r' % (e, rexes))
         return out
     unmatched = [x for x in distinct
-                 if not any(re.match(c, x) for c in crs)]
+                 if not any(re.fullmatch(c, x) for c in crs)]
     if any(re.match(c, x) and not re.fullmatch(c, x)
            for x in distinct for c in crs):
-        out.label('match-but-not-fullmatch')
+        out.label('match-but-not-fullmatch-by-some-expression')
     if not unmatched:
         return out
     dialect = eff['opts'].get('dialect', 'portable')
